@@ -278,7 +278,7 @@ func c07RunSection(cfg verifh.Cfg, ops []string) []string {
 
 func c07Gen(r *verifh.Rng) []verifh.Section {
 	var secs []verifh.Section
-	nsec := verifh.Scale(360, 3000)
+	nsec := verifh.Scale(1200, 10000)
 	for i := 0; i < nsec; i++ {
 		mode := "sf"
 		switch x := r.Intn(10); {
